@@ -285,4 +285,68 @@ Section ModelSpec.
     destruct (u_frame u) as [[[rw s] e]|]; simpl; [|reflexivity].
     destruct Hfr as [H1 H2]. rewrite H1, H2. reflexivity.
   Qed.
+
+  (** ... and when a bare key is also given Spark's default placement (ascending, NULLs first) by the code that
+      builds the spec, no restriction on the keys is left *)
+  Theorem model_is_spark_all u :
+    (forall m, In m all_ometh -> flags m = spark_flags m) ->
+    bare_default = spark_flags MBare -> frame_exact u ->
+    model_wspec u = Some (spark_wspec u).
+  Proof.
+    intros Hf Hb Hfr. unfold model_wspec, spark_wspec.
+    assert (Hk : map (fun k => let '(d, nf) := (match snd k with MBare => bare_default | m => flags m end) in
+                               mkKey (fst k) d nf) (u_order u) =
+                 map (fun k => let '(d, nf) := spark_flags (snd k) in mkKey (fst k) d nf) (u_order u)).
+    { apply map_ext_in. intros [e m] Hin. cbn [snd fst].
+      destruct m; try (rewrite Hf by (simpl; tauto); reflexivity). rewrite Hb. reflexivity. }
+    rewrite Hk. unfold frame_exact in Hfr.
+    destruct (u_frame u) as [[[rw s] e]|]; simpl; [|reflexivity].
+    destruct Hfr as [H1 H2]. rewrite H1, H2. reflexivity.
+  Qed.
 End ModelSpec.
+
+(** * Building a spec step by step: Window.partitionBy(..).orderBy(..).rowsBetween(..) in any order, any number of times.
+    In Spark every builder method REPLACES its component and keeps the two others (WindowSpec.scala); the flags say what
+    the implementation's methods do (regenerated from window.py). *)
+Inductive sstep :=
+| SPart (l : list expr)
+| SOrder (l : list (expr * ometh))
+| SFrame (f : bool * Z * Z).
+
+Section Build.
+  Variable part_replaces order_replaces : bool.
+  Definition apply_sstep (u : uspec) (s : sstep) : uspec :=
+    match s with
+    | SPart l => mkU (if part_replaces then l else u_part u ++ l) (u_order u) (u_frame u)
+    | SOrder l => mkU (u_part u) (if order_replaces then l else u_order u ++ l) (u_frame u)
+    | SFrame f => mkU (u_part u) (u_order u) (Some f)
+    end.
+  Definition build_from (u : uspec) (plan : list sstep) : uspec := fold_left apply_sstep plan u.
+  Definition build (plan : list sstep) : uspec := build_from (mkU [] [] None) plan.
+End Build.
+
+Definition spark_build : list sstep -> uspec := build true true.
+
+(** what Spark's builder means: the LAST step of each kind decides that component *)
+Fixpoint last_part (plan : list sstep) (acc : list expr) : list expr :=
+  match plan with [] => acc | SPart l :: t => last_part t l | _ :: t => last_part t acc end.
+Fixpoint last_order (plan : list sstep) (acc : list (expr * ometh)) : list (expr * ometh) :=
+  match plan with [] => acc | SOrder l :: t => last_order t l | _ :: t => last_order t acc end.
+Fixpoint last_frame (plan : list sstep) (acc : option (bool * Z * Z)) : option (bool * Z * Z) :=
+  match plan with [] => acc | SFrame f :: t => last_frame t (Some f) | _ :: t => last_frame t acc end.
+
+Theorem spark_build_last_wins plan u :
+  build_from true true u plan = mkU (last_part plan (u_part u)) (last_order plan (u_order u)) (last_frame plan (u_frame u)).
+Proof.
+  revert u. induction plan as [|s t IH]; intros u.
+  - destruct u; reflexivity.
+  - unfold build_from in *. cbn [fold_left]. rewrite IH. destruct s; reflexivity.
+Qed.
+
+Theorem build_is_sparks pr orr plan : pr = true -> orr = true -> build pr orr plan = spark_build plan.
+Proof. intros -> ->. reflexivity. Qed.
+
+(** the two behaviours really differ: an implementation that appends is refuted by a two-step plan *)
+Example appending_differs :
+  build false true [SPart [ECol "a"]; SPart [ECol "b"]] <> spark_build [SPart [ECol "a"]; SPart [ECol "b"]].
+Proof. discriminate. Qed.
